@@ -206,7 +206,7 @@ func TestProgramsF47(t *testing.T) {
 	rec.SetRule(rule)
 	rec.Assume("the reference interpreter encodes the documented meaning of frontend/api.go")
 	g := genCase([]string{"f47"}, prog.GenConfig{MaxOps: 14})
-	rec.Check(t, "prog", ev.N(20000, 400000), func(rt *rapid.T) {
+	rec.Check(t, "prog", ev.N(30000, 400000), func(rt *rapid.T) {
 		c := g.Draw(rt, "case")
 		rec.Begin("prog", c)
 		rec.Report(rt, "prog", c, run(c, rec))
@@ -221,7 +221,7 @@ func TestProgramsCurves(t *testing.T) {
 		fields = append(fields, "babybear", "koalabear")
 	}
 	g := genCase(fields, prog.GenConfig{MaxOps: 10, Weights: map[string]int{"Cmp": 1, "AssertLE": 1}})
-	rec.Check(t, "prog", ev.N(1500, 60000), func(rt *rapid.T) {
+	rec.Check(t, "prog", ev.N(2500, 60000), func(rt *rapid.T) {
 		c := g.Draw(rt, "case")
 		rec.Begin("prog", c)
 		rec.Report(rt, "prog", c, run(c, rec))
